@@ -4,7 +4,7 @@ import math
 
 import numpy as np
 
-from .. import cases, cmp, gen, sim, expect
+from .. import cases, cmp, corpus, gen, sim, expect
 from ..harness import CaseResult
 from ..probe import read
 
@@ -33,14 +33,20 @@ REQUIRED_REACH = ["share", "shares_add_to_one", "subtotal_share_is_sum_of_addend
                   "strand_share", "class:inserted_row", "class:inserted_column",
                   "class:intersection", "class:numarr", "class:categorical_rows"]
 BATCH = 40
+RULE = RULE + corpus.RULE_SUFFIX
+REQUIRED_REACH = list(REQUIRED_REACH) + ["class:corpus"]
+TECHNIQUE = TECHNIQUE + corpus.TECHNIQUE_SUFFIX
 
 
 def units(tier, seed):
     n = 1400 if tier == "quick" else 30000
-    return [{"i": i, "seed": seed} for i in range(n)]
+    # W1 synthetic surveys, then W3: the fixture corpus under the intrinsic relations
+    return [{"i": i, "seed": seed} for i in range(n)] + corpus.units(tier, seed)
 
 
 def make_case(unit):
+    if "corpus" in unit:
+        return corpus.make_case(ID, unit)
     i = unit["i"]
     g = gen.G("C15/%s/%s" % (unit["seed"], i))
     template = TEMPLATES[i % len(TEMPLATES)]
@@ -87,6 +93,8 @@ def _signed_sum(o, sel):
 
 
 def check_case(case):
+    if "fixture" in case:
+        return corpus.check_case(ID, case)
     res = CaseResult()
     L = cases.realize(case)
     o = L.oracle
